@@ -25,9 +25,10 @@ Print Assumptions select_debian_universe.
    kind k (Packages / binary Release / Sources / source Release / Translation-l /
    Contents-a / Contents-source / dep11 Components-a.yml / dep11 icons-z.tar /
    cnf Commands-a) and every compression extension, provided the names do not
-   collide ([names_okb], decidable: c, the architectures and l / z consist of
-   lower-case letters and digits; no architecture in play is a substring of c,
-   of another architecture or of a token of the path grammar, contains "source",
+   collide ([names_okb], decidable: c consists of lower-case letters, digits and
+   dashes and does not contain "-all" or "source", the architectures and l / z
+   of lower-case letters and digits; no configured architecture is a substring of c,
+   no architecture in play of another one or of a token of the path grammar, contains "source",
    or starts with "all" without being "all"), the same three facts hold as in
    the closed sweep.  Nested components (main/debian-installer) stay with the
    sweep. *)
@@ -47,6 +48,34 @@ Theorem allowed_is_structural :
   allowed cfg (render_kpath (std_path c k e)) = allowed_struct cfg c k.
 Proof. exact allowed_is_struct. Qed.
 Print Assumptions allowed_is_structural.
+
+(* NESTED COMPONENTS <c1>/<c2> (main/debian-installer, any names): every standard
+   kind that lives in a sub-directory of the component (everything except the
+   direct-child kinds Contents-a / Contents-source, which the tool attributes to
+   the parent component), under the same non-collision conditions plus: c2 is
+   not one of the reserved directory names source / cnf / dep11 / i18n. *)
+Theorem select_spec_nested :
+  forall cfg c1 c2 k e,
+  names_okb_nested cfg c1 c2 k = true -> In e exts ->
+  let p := std_path (nested_comp c1 c2) k e in
+  (must_fetch cfg p = true -> allowed cfg (render_kpath p) = true) /\
+  (must_not_fetch cfg p = true -> allowed cfg (render_kpath p) = false) /\
+  (must_fetch cfg p && must_not_fetch cfg p = false).
+Proof. exact select_spec_nested_prop. Qed.
+Print Assumptions select_spec_nested.
+
+Example select_spec_nested_example :
+  let cfg := [{| cname := "main"; csrc := false; carches := ["amd64"] |};
+              {| cname := "main/debian-installer"; csrc := false; carches := ["amd64"; "arm64"] |}] in
+  nested_comp "main" "debian-installer" = "main/debian-installer" /\
+  names_okb_nested cfg "main" "debian-installer" (KPackages "arm64") = true /\
+  names_okb_nested cfg "main" "debian-installer" (KBinRelease "all") = true /\
+  names_okb ({| cname := "non-free-firmware"; csrc := true; carches := ["amd64"] |} :: cfg) "non-free-firmware" (KContents "amd64") = true /\
+  names_okb_nested ({| cname := "universe/installer"; csrc := true; carches := ["riscv64"] |} :: cfg)
+                   "universe" "installer" (KDep11 "riscv64") = true /\
+  must_fetch ({| cname := "universe/installer"; csrc := true; carches := ["riscv64"] |} :: cfg)
+             (std_path (nested_comp "universe" "installer") (KDep11 "riscv64") ".xz") = true.
+Proof. vm_compute. repeat split; reflexivity. Qed.
 
 (* non-vacuity: Ubuntu-ports-like names that the closed sweep does not contain *)
 Example select_spec_general_example :
